@@ -299,7 +299,11 @@ def thunk_code(e, n):
         if k in ("out_mem", "in_mem"):
             args.append("x.%s" % r)
         elif k == "bcast":
-            args.append("x.v%s" % r)
+            # call form in which the scalar argument is an lvalue that lives in the result array (x.bcast_alias names the operand)
+            if any(oo["role"] == "c" and oo["param"]["kind"] == "out_mem" for oo in e["_operands"]):
+                args.append("(x.bcast_alias == %d ? x.c[x.bcast_cell] : x.v%s)" % (1 if r == "a" else 2, r))
+            else:
+                args.append("x.v%s" % r)
         elif k == "in_reg":
             pre.append("    %s r%s = %s;" % (reg, r, ld % ("x.r" + r)))
             args.append("r" + r)
@@ -389,8 +393,31 @@ def load_table():
 def compare(current, committed):
     """list of human-readable differences between the table parsed now and the committed one"""
     diffs = []
-    cur = {(e["family"], e["signature"]): e for e in current["overloads"]}
-    com = {(e["family"], e["signature"]): e for e in committed.get("overloads", [])}
+
+    def norm(sig):
+        # how a value parameter is passed (by value / by const reference), const qualifiers and parameter names are spelling, not shape
+        inner = sig[sig.index("(") + 1:sig.rindex(")")]
+        ps = []
+        for prm in inner.split(","):
+            prm = prm.replace("const ", "").replace("&", " ").strip()
+            prm = prm.replace("*", " * ")
+            toks = prm.split()
+            arr = ""
+            if toks and "[" in toks[-1]:
+                arr = toks[-1][toks[-1].index("["):]
+                toks[-1] = toks[-1][:toks[-1].index("[")]
+            if len(toks) > 1 and toks[-1] != "*":
+                toks = toks[:-1]  # drop the parameter name
+            ps.append(" ".join(toks) + arr)
+        return sig[:sig.index("(")] + "(" + ", ".join(ps) + ")"
+
+    def sem(e):
+        d = {k: v for k, v in e.items() if k not in ("signature", "fnptr")}
+        d["operands"] = {r: {k: v for k, v in o.items() if k not in ("param", "by_reference")} for r, o in e.get("operands", {}).items()}
+        return d
+
+    cur = {(e["family"], norm(e["signature"]), e["id"]): sem(e) for e in current["overloads"]}
+    com = {(e["family"], norm(e["signature"]), e["id"]): sem(e) for e in committed.get("overloads", [])}
     for k in sorted(set(cur) - set(com)):
         diffs.append("declared now but not in the committed table: " + k[1])
     for k in sorted(set(com) - set(cur)):
